@@ -697,7 +697,10 @@ pub fn attribute(v: &FrameViolation) -> Vec<&'static str> {
             // C06 is unconditional about this: a flush that returns Ok leaves nothing buffered, a dropped sink has
             // written what it accepted unless the drop's own write failed - whatever failed earlier
             ("F2", "flush-left-data") | ("F2", "lost-at-drop") => vec!["C07", "C06"],
-            ("F1", _) | ("F2", _) | ("F3", _) => vec!["C07"],
+            // what a write may look like (whole lines within the capacity, or one metric that cannot fit, alone) does
+            // not depend on what failed before either
+            ("F1", _) => vec!["C07", "C05"],
+            ("F2", _) | ("F3", _) => vec!["C07"],
             // "writes only when it must" holds whatever failed earlier: a refused write is no reason to write early later on
             ("F4", _) => vec!["C19"],
             _ => vec![],
